@@ -71,12 +71,21 @@ package sm9
 //@ func (*XOREncrypterOpts).Decrypt property C13,C10
 //@   nullable opts
 //@   modifies key[0..len(key)]
+// (completeness of the length gate: with a usable cipher, a ciphertext of IV + at least one whole block
+// always reaches the unpadding step, and the result is exactly what Unpad returns - so everything
+// Encrypt can produce, from one-byte messages on, is accepted)
 //@ func (*CBCEncrypterOpts).Decrypt property C13,C10
 //@   requires opts.padding != nil && opts.newCipher != nil
+//@   bind after call BlockSize#1: BSZ := result
+//@   bind after call Unpad#1: UE := result1
+//@   ensures defined(BSZ) && len(ciphertext) > BSZ && len(ciphertext) % BSZ == 0 ==> defined(UE) && (err == nil <==> UE == nil)
 //@   heapnonnil
 //@   modifies everything
 //@ func (*ECBEncrypterOpts).Decrypt property C13,C10
 //@   requires opts.padding != nil && opts.newCipher != nil
+//@   bind after call BlockSize#1: BSZ := result
+//@   bind after call Unpad#1: UE := result1
+//@   ensures defined(BSZ) && len(ciphertext) > 0 && len(ciphertext) % BSZ == 0 ==> defined(UE) && (err == nil <==> UE == nil)
 //@   heapnonnil
 //@   modifies everything
 //@ func (*CFBEncrypterOpts).Decrypt property C13,C10
